@@ -77,7 +77,12 @@ PARTIAL = (
     "(invalidate's rewrite context around delete_match) must never surround user code: calls are made inside the body of an enclosing function with the "
     "same parameter names under invalidate (two forms), cache, early, soft, hit, failover, locked, circuit_breaker, rate_limit, slice_rate_limit and "
     "disabling, and must read the key they have outside it. Not exercised as enclosing contexts: cache.transaction() and cache.invalidate_further() "
-    "(reads do not reach the backend's get there), iterator / bloom / dynamic decorators, contrib middlewares."
+    "(reads do not reach the backend's get there), iterator / bloom / dynamic decorators, contrib middlewares. "
+    "Wrapping options: time_condition=, lock=True, upper=True, protected=False (and combinations) and the cache decorator stacked on locked / rate_limit / "
+    "slice_rate_limit / circuit_breaker / invalidate are exercised through cache(ttl=..) only (early / soft / hit / failover take the same facade path "
+    "_wrap_on but their key prefixes and read patterns are not modelled); the stage is judged by the existing oracles (canonicity, separation, facade) and "
+    "the model's template - the wrappers themselves are not modelled in Lean; through noself a wrapper that hides the signature makes the decorator refuse "
+    "the explicit template (WrongKeyError), which is counted, not judged."
 )
 
 
@@ -276,6 +281,8 @@ def evaluate(case, impl, model, stats=None) -> list[dict]:
             bump("unbindable_positional_call_typeerror")
         if any(x == "n" for x in c["args"]) or any(v == "n" for _, v in c["kwargs"]):
             bump("toplevel_none_argument")
+        if case.get("opts") or case.get("stack"):
+            bump("calls_through_wrapping_options")
         if any(non_ascii_text(x) for x in c["args"]) or any(non_ascii_text(v) for _, v in c["kwargs"]):
             bump("calls_with_non_ascii_text")
     bounds = group_bounds(case)
@@ -502,7 +509,7 @@ def shrink(case, fail) -> dict:
         d["via"] = "direct"
         if still_fails(d, kind):
             c = d
-    for flag in ("flight", "recv", "reuse", "inside"):
+    for flag in ("flight", "recv", "reuse", "inside", "stack", "opts"):
         if c.get(flag) and not (flag == "flight" and kind in ("flight", "flightmodel")):
             d = copy.deepcopy(c)
             del d[flag]
@@ -632,6 +639,10 @@ def pretty_sig(case) -> str:
     how = {"noself": " through noself(cache)(ttl=..)", "decorator": " through cache(ttl=..)"}.get(case["via"], "")
     if case.get("flight") and how:
         how = how.replace("cache(", {"cache": "cache(", "early": "cache.early(", "soft": "cache.soft("}[case["flight"]])
+    if case.get("opts") and how:
+        how = how.replace("ttl=..", "ttl=.., " + ", ".join(f"{k}={v}" for k, v in case["opts"].items()))
+    if case.get("stack") and how:
+        how += f" on top of cache.{case['stack']}(..)"
     if case.get("inside"):
         how += f", called inside the body of {enclosing_text(case)}"
     if case.get("reuse"):
@@ -722,6 +733,12 @@ def gen_cases_for_sig(rng, sig, names, rich: bool):
                 # the same calls in overlapping pairs (single flight)
                 out[-1]["flight"] = rng.choice(["cache", "early", "soft"])
         if via == "decorator" and rng.random() < 0.6:
+            # the same calls through the facade options that wrap the function before the key template is derived
+            out.append(dict(out[-1], groups=copy.deepcopy(out[-1]["groups"]), opts=dict(rng.choice(kc.WRAP_OPTIONS))))
+            out[-1].pop("flight", None)
+            if rng.random() < 0.4:
+                out[-1]["stack"] = rng.choice(kc.STACK_KINDS)
+        if via == "decorator" and rng.random() < 0.6:
             # the same calls made inside the body of an enclosing decorated function with the same parameter names
             out.append(dict(out[-1], groups=copy.deepcopy(out[-1]["groups"]), inside=rng.choice(kc.INSIDE_KINDS)))
             out[-1].pop("flight", None)
@@ -738,6 +755,8 @@ def gen_cases_for_sig(rng, sig, names, rich: bool):
                     out[-1]["reuse"] = True
                 elif rng.random() < 0.4:
                     out[-1]["inside"] = rng.choice(kc.INSIDE_KINDS)
+                if not out[-1].get("flight") and rng.random() < 0.4:
+                    out[-1]["opts"] = dict(rng.choice(kc.WRAP_OPTIONS))
                 if stream == "scalar" and rng.random() < 0.5:
                     out[-1]["flight"] = rng.choice(["cache", "early", "soft"])
     # malformed stream
@@ -892,6 +911,40 @@ def flight_cases(rng, rich: bool):
                     if recv:
                         c["recv"] = recv
                     out.append(c)
+    return out
+
+
+def option_cases(rng, rich: bool):
+    """the wrapping-options stream (fixed): call-form canonicity and separation cases through cache(ttl=.., <options>) without
+    key= (and through noself, and with an explicit template), for every option of the facade that wraps the function or
+    changes how the decorator is applied before the key template is derived - time_condition=, lock=True, upper=True,
+    protected=False and combinations - and with the cache decorator stacked on another cashews decorator"""
+    out = []
+    e = kc.enc
+
+    def call(args=(), **kw):
+        return {"args": [e(x) for x in args], "kwargs": [[n, e(v)] for n, v in kw.items()]}
+
+    table = [
+        ("load", [["p", "user", None], ["p", "page", e(1)]], {"auto": []}, "decorator",
+         [{"calls": [call(["bob", 2]), call(user="bob", page=2), call(["bob"], page=2)]}, {"calls": [call(["ann"]), call(["ann", 1]), call(user="ann")]}]),
+        ("K.get", [["p", "self", None], ["p", "path", None], ["k", "q", e(None)]], {"auto": []}, "decorator",
+         [{"calls": [call(["eu", "/u"]), call(["eu"], path="/u"), call(["eu", "/u"], q=None)]}, {"calls": [call(["us", "/u"])]}]),
+        ("K.get", [["p", "self", None], ["p", "path", None], ["k", "q", e(None)]], {"auto": ["self"]}, "noself",
+         [{"calls": [call(["eu", "/u"]), call(["eu"], path="/u"), call(["eu", "/u"], q=None)]}, {"calls": [call(["eu", "/v"])]}]),
+        ("f", [["p", "a", None], ["s", "args", None], ["k", "c", e("d")], ["w", "kwargs", None]], {"auto": []}, "decorator",
+         [{"calls": [call(["v", 1], x="q"), call(["v", 1], c="d", x="q")]}, {"calls": [call(["v", 1], x="r")]}, {"calls": [call(["w"]), call(a="w")]}]),
+        ("load", [["p", "user", None], ["p", "page", e(1)]], {"items": [["L", "u:"], ["F", "user"], ["L", ":"], ["F", "page"]]}, "decorator",
+         [{"calls": [call(["bob", 2]), call(user="bob", page=2)]}, {"calls": [call(["ann"]), call(["ann", 1])]}]),
+    ]
+    for name, sig, tmpl, via, groups in table:
+        names = {"module": "m", "name": name.split(".")[-1], "qualname": name}
+        base = {"names": names, "sig": sig, "tmpl": tmpl, "ctx": None, "via": via, "prefix": "", "groups": groups, "stream": "options"}
+        for opts in kc.WRAP_OPTIONS:
+            out.append(dict(copy.deepcopy(base), opts=dict(opts)))
+        for i, st in enumerate(kc.STACK_KINDS):
+            out.append(dict(copy.deepcopy(base), stack=st))
+            out.append(dict(copy.deepcopy(base), stack=st, opts=dict(kc.WRAP_OPTIONS[i % len(kc.WRAP_OPTIONS)])))
     return out
 
 
@@ -1101,6 +1154,9 @@ def run(chk: Check) -> int:
     for c in inside_cases(rng, chk.thorough):
         cases.append(c)
         origin.append("inside")
+    for c in option_cases(rng, chk.thorough):
+        cases.append(c)
+        origin.append("options")
     sig_count = 0
     for shape, rep in chosen:
         first_self = rng.choice(["self", "self", "self", "cls"]) if shape[0] > 0 and rng.random() < 0.2 else False
@@ -1203,6 +1259,9 @@ def run(chk: Check) -> int:
                 "a fixed enclosing-context stream: cached functions (explicit / generated / noself templates, *args, **kwargs) called inside the body of a "
                 "function with the same parameter names decorated with each of " + str(len(kc.INSIDE_KINDS)) + " cashews decorators / context managers and called with other values, "
                 "and under user key contexts holding a value for every parameter; 60% of the generated decorated cases are run a second time inside such a body. "
+                "a fixed wrapping-options stream: call-form and separation cases through cache(ttl=.., time_condition= / lock=True / upper=True / protected=False "
+                "and combinations) without key=, through noself, with an explicit template, and stacked on locked / rate_limit / slice_rate_limit / circuit_breaker / "
+                "invalidate; 60% of the generated decorated cases are run once more through a random option set (40% of those stacked). "
                 "A case is non-trivial iff it compared at least two call forms of one "
                 "bound tuple, checked a separation pair inside the stated domain, took the keyword-only path with defaults applied, the raw-kwargs "
                 "fallback, the formatter's slow path, a TypeError from bind, a decorated cache hit, or ran a pair of overlapping calls; distinct = distinct case contents",
